@@ -340,6 +340,18 @@ func (g *fileGen) embedHeavy(used map[string]bool) {
 			}
 			host.Fields = append(host.Fields, ef)
 		}
+		// now and then the host itself is embedded by value into a new message: its nullable embedded parents
+		// are then one embedding level further down
+		if wn := "Wrap" + tag; !used[wn] && rapid.IntRange(0, 2).Draw(t, "eh_wrap") == 0 {
+			used[wn] = true
+			w := &ir.Message{Name: wn}
+			w.Fields = append(w.Fields, &ir.Field{Name: "Wr" + tag + "Str", Number: 1, Kind: "string"})
+			w.Fields = append(w.Fields, &ir.Field{Name: host.Name, Number: 2, Kind: ir.KMessage, Type: host.Name, Embed: true, Nullable: boolp(false)})
+			if rapid.Bool().Draw(t, "eh_wrapnum") {
+				w.Fields = append(w.Fields, &ir.Field{Name: "wr" + strings.ToLower(tag) + "_num", Number: 3, Kind: "int32"})
+			}
+			f.Messages = append(f.Messages, w)
+		}
 	}
 }
 
